@@ -4,10 +4,10 @@
   operation with every value, every history (list of operations of any length,
   valid and invalid interleaved, any order) — by induction on the history.
 
-  One clause of the property is false of the code (pre-finding D9, recorded in
-  /verif/known_findings.json): profile 2's `SetSoftwareComponents(nil)` succeeds
-  and leaves zero components.  `set_ok_iff_valid_partial` carries exactly that
-  exclusion as a hypothesis; `set_ok_iff_valid_negation` is the witness.
+  The one clause that was false of the code (D9: profile 2's `SetSoftwareComponents(nil)`
+  succeeded and left zero components) was repaired in /repo; the theorems are now stated
+  without that exclusion.  `clear_is_exempt` records why the property exempts the empty
+  non-nil list: the setter accepts it although validation rejects zero components.
 -/
 import Psa.Proofs.Setters
 import Psa.Props.C01
@@ -16,8 +16,6 @@ open Psa Psa.Model Psa.Spec Psa.Proofs
 
 /-- "clear": an empty, non-nil component list (exempt from the iff and validates clauses) -/
 def IsClear (op : SetOp) : Prop := op = .sw (some [])
-/-- the recorded defect: profile 2, nil component list -/
-def IsD9 (p : Prof) (op : SetOp) : Prop := p = .p2 ∧ op = .sw none
 
 theorem map_some_inj {α} : ∀ (a b : List α), a.map some = b.map some → a = b
   | [], [], _ => rfl
@@ -30,7 +28,7 @@ theorem map_some_inj {α} : ∀ (a b : List α), a.map some = b.map some → a =
 /-- A setter succeeds iff the value is one the same profile's validation accepts for that claim
     (`ClaimOK g c` is the conjunct of `Conformant c` for claim `g`; `assign` stores the value
     unconditionally, as a decoder would). -/
-theorem set_ok_iff_valid_partial (c : Claims) (op : SetOp) (hc : ¬ IsClear op) (hd : ¬ IsD9 c.prof op) :
+theorem set_ok_iff_valid (c : Claims) (op : SetOp) (hc : ¬ IsClear op) :
     (applySet c op).2 = .ok () ↔ ClaimOK (claimOf op) (assign c op) := by
   rw [applySet_ok_iff]
   obtain ⟨prof, canonical, profile, clientId, lifecycle, implId, bootSeed, certRef, sw, noSw, nonce, instId, vsi⟩ := c
@@ -48,7 +46,13 @@ theorem set_ok_iff_valid_partial (c : Claims) (op : SetOp) (hc : ¬ IsClear op) 
     | none =>
       cases prof
       · simp [accepts, claimOf, assign, ClaimOK, NoComponents, SwField.elems]
-      · exact absurd ⟨rfl, rfl⟩ hd
+      · -- profile 2, nil list: the setter refuses, and validation refuses zero components
+        simp only [accepts, claimOf, assign, ClaimOK, Bool.false_eq_true, false_iff]
+        rintro ⟨l, hne, hl, _⟩
+        simp only [SwField.elems] at hl
+        cases l with
+        | nil => exact hne rfl
+        | cons a as => simp at hl
     | some vals =>
       have hne : vals ≠ [] := fun h => hc (by rw [h]; rfl)
       have key : vals.all compOK = true ↔ ComponentsOK (.cont (some (vals.map some))) := by
@@ -71,21 +75,26 @@ theorem set_ok_iff_valid_partial (c : Claims) (op : SetOp) (hc : ¬ IsClear op) 
           · simp [NoComponents, SwField.elems, hne] at h
       · simp only [accepts, claimOf, assign, ClaimOK]; exact key
 
-/-- The excluded case really is a counterexample on the present code: the setter succeeds,
-    validation rejects the resulting value. -/
-theorem set_ok_iff_valid_negation :
-    ∃ c : Claims, c.prof = .p2 ∧ (applySet c (.sw none)).2 = .ok () ∧ ¬ ClaimOK .sw (assign c (.sw none)) := by
+/-- why the empty non-nil list is exempt: the setter accepts it (it is the "clear" operation) although validation
+    rejects a claims-set with zero components -/
+theorem clear_is_exempt :
+    ∃ c : Claims, c.prof = .p2 ∧ (applySet c (.sw (some []))).2 = .ok () ∧ ¬ ClaimOK .sw (assign c (.sw (some []))) := by
   refine ⟨Claims.new .p2, rfl, by decide, ?_⟩
   intro h
   simp only [assign, ClaimOK, Claims.new] at h
   obtain ⟨l, hne, hl, _⟩ := h
-  simp only [SwField.elems] at hl
+  simp only [SwField.elems, List.map_nil] at hl
   cases l with
   | nil => exact hne rfl
   | cons a as => simp at hl
 
+/-- the repaired case: profile 2 refuses the nil list and leaves the claims-set as it was -/
+theorem p2_nil_components_refused (c : Claims) (hp : c.prof = .p2) :
+    (applySet c (.sw none)).2 = .err eWrongSyntax ∧ (applySet c (.sw none)).1 = c := by
+  simp [applySet, hp]
+
 /-- After success the matching getter returns exactly that value … -/
-theorem set_get (c : Claims) (op : SetOp) (hc : ¬ IsClear op) (hd : ¬ IsD9 c.prof op)
+theorem set_get (c : Claims) (op : SetOp) (hc : ¬ IsClear op)
     (h : (applySet c op).2 = .ok ()) :
     Model.get (claimOf op) (applySet c op).1 = .ok (valOf op) := by
   have ha := (applySet_ok_iff c op).mp h
@@ -119,7 +128,7 @@ theorem set_get (c : Claims) (op : SetOp) (hc : ¬ IsClear op) (hd : ¬ IsD9 c.p
     | none =>
       cases prof
       · simp [claimOf, assign, Model.get, getSoftwareComponents, SwField.nilOrEmpty, SwField.elems, valOf]
-      · exact absurd ⟨rfl, rfl⟩ hd
+      · simp [accepts] at ha
     | some vals =>
       have hne : vals ≠ [] := fun h => hc (by rw [h]; rfl)
       simp only [accepts, List.all_eq_true] at ha
@@ -200,19 +209,19 @@ theorem lastOk_accepted (p : Prof) (ops : List SetOp) : AllAccepted p (lastOk p 
         first | assumption | (intro x hx; cases hx; exact ha)
 
 /-- A claims-set on which every mandatory claim was set successfully (and the component list not
-    cleared; profile 2: not the nil list of D9) validates. -/
-theorem all_mandatory_set_validates_partial (p : Prof) (ops : List SetOp)
+    cleared) validates. -/
+theorem all_mandatory_set_validates (p : Prof) (ops : List SetOp)
     (hcid : (lastOk p ops).clientId ≠ none) (hlc : (lastOk p ops).lifecycle ≠ none)
     (himpl : (lastOk p ops).implId ≠ none) (hboot : p = .p1 → (lastOk p ops).bootSeed ≠ none)
     (hnonce : (lastOk p ops).nonce ≠ none) (hinst : (lastOk p ops).instId ≠ none)
-    (hsw : ∃ x, (lastOk p ops).sw = some x ∧ x ≠ some [] ∧ ¬ (p = .p2 ∧ x = none)) :
+    (hsw : ∃ x, (lastOk p ops).sw = some x ∧ x ≠ some []) :
     validate (run (Claims.new p) ops) = .ok () := by
   rw [(history_observation p ops).2, C01.validate_iff_conformant]
   have hacc := lastOk_accepted p ops
   generalize lastOk p ops = v at *
   obtain ⟨cid, lc, impl, boot, cert, sw, nonce, inst, vsi⟩ := v
   obtain ⟨a1, a2, a3, a4, a5, a6, a7, a8, a9⟩ := hacc
-  obtain ⟨x, hx, hxne, hxd9⟩ := hsw
+  obtain ⟨x, hx, hxne⟩ := hsw
   simp only at hcid hlc himpl hboot hnonce hinst hx a1 a2 a3 a4 a5 a6 a7 a8 a9
   subst hx
   rw [conformant_iff_all]
@@ -257,7 +266,7 @@ theorem all_mandatory_set_validates_partial (p : Prof) (ops : List SetOp)
     | none =>
       cases p
       · simp [canon, ClaimOK, Claims.new, NoComponents, SwField.elems]
-      · exact absurd ⟨rfl, rfl⟩ hxd9
+      · simp [accepts] at hx'
     | some vals =>
       have hne : vals ≠ [] := fun h => hxne (by rw [h])
       simp only [accepts, List.all_eq_true] at hx'
